@@ -57,12 +57,18 @@ STOP_CASES = {'quick': 200, 'thorough': 3000}
 
 HANDLER_CASES = {'quick': 160, 'thorough': 3000}
 
+# a fourth family: the general one with slow handshakes (each XML-RPC of a handshake takes 0 - 3 s, L3 engine) and more
+# instance restarts: losses are acknowledged while peers are being checked again
+SLOW_KNOBS = dict(KNOBS, handshake_skew=[0.0, 0.3, 1.0, 2.0, 3.0],
+                  actions=KNOBS['actions'] + ['restart', 'restart'])
+
 
 def plan(tier, seed):
     # two families: end-to-end losses in a cluster (L3), histories fed to the real handler (L1)
     cases = [{'seed': seed * 1000003 + i, 'family': 'cluster'} for i in range(COUNT[tier])]
     cases += [{'seed': seed * 1000003 + 500000 + i, 'family': 'handler'} for i in range(HANDLER_CASES[tier])]
     cases += [{'seed': seed * 1000003 + 800000 + i, 'family': 'loss-during-stop'} for i in range(STOP_CASES[tier])]
+    cases += [{'seed': seed * 1000003 + 900000 + i, 'family': 'slow-handshake'} for i in range(COUNT[tier] // 8)]
     return cases
 
 
@@ -71,7 +77,8 @@ def run_case(case):
         return run_handler_case(case)
     tracker = Tracker()
     mon = RunningFailureMonitor(tracker)
-    run = Run(case, STOP_KNOBS if case.get('family') == 'loss-during-stop' else KNOBS, [tracker, mon])
+    run = Run(case, {'loss-during-stop': STOP_KNOBS, 'slow-handshake': SLOW_KNOBS}.get(case.get('family'), KNOBS),
+              [tracker, mon])
     violations = run.execute()
     nontrivial = mon.counters.get('lost_processes', 0) > 0
     return {'violations': violations, 'counters': run.counters,
